@@ -14,12 +14,13 @@ Section IPABatchComplete.
   Variable d : nat.
   Hypothesis Hd : (d + 1 = 2 ^ Nat.log2_up (d + 1))%nat.
 
-  (* the verifier's entry for a label is the commitment and bound of the prover's honest item *)
+  (* the verifier's entry for a label is the commitment and bound of the prover's item, which is a commitment to the item's
+     polynomial in the sense of sem_honest (commit's outputs are: honest_sem) *)
   Definition iR (it : IItem) (c : IComm * option nat) : Prop :=
-    honest d it /\ c = (snd (fst it), snd (fst (fst it))).
+    sem_honest d it /\ c = (snd (fst it), snd (fst (fst it))).
   Definition ivalue (it : IItem) (pt : point) : F := eval (lp_poly (fst (fst (fst it)))) (hd 0 pt).
 
-  Lemma iR_cs : forall its cs, Forall2 iR its cs -> Forall (honest d) its /\ cs = cs_of its.
+  Lemma iR_cs : forall its cs, Forall2 iR its cs -> Forall (sem_honest d) its /\ cs = cs_of its.
   Proof.
     induction 1 as [|it c its cs [Hh Hc] _ [IH1 IH2]]; [split; [constructor|reflexivity]|].
     split; [constructor; assumption|]. subst. destruct it as [[[lp cb] cm] st]. reflexivity.
@@ -97,7 +98,7 @@ Section IPABatchComplete.
       unfold ib_open in Eo. destruct pt as [|z [|? ?]]; try discriminate.
       destruct (i_open d its z chal hchal rng) as [[[[pf0 rest0] hrest0] nd]| |] eqn:Ei; cbn [bind] in Eo; try discriminate.
       injection Eo as <- <-.
-      pose proof (ipa_complete d its z chal hchal rng pf0 rest0 hrest0 nd Hd Hh Hnz Ei) as Hc.
+      pose proof (ipa_complete_sem d its z chal hchal rng pf0 rest0 hrest0 nd Hd Hh Hnz Ei) as Hc.
       destruct (i_check_true_inv _ _ _ _ _ _ _ _ Hc) as (Hshape & chs & Es & Ek).
       destruct vtape as [|x vt']; [cbn [length] in L; lia|].
       assert (L' : (length gs <= length vt')%nat) by (cbn [length] in L; lia).
